@@ -33,6 +33,16 @@ pub mod refcursor;
 
 pub const VERIF_ROOT: &str = "/verif";
 
+/// Where evidence and replay files are written.  Always /verif for the registered commands; the
+/// sensitivity tooling (tools/mutant_run.sh) redirects it so that runs against mutated scratch
+/// copies never touch the committed evidence.
+pub fn out_root() -> PathBuf {
+    match std::env::var("VERIF_OUT_DIR") {
+        Ok(d) if !d.is_empty() => PathBuf::from(d),
+        _ => PathBuf::from(VERIF_ROOT),
+    }
+}
+
 ////////////////////////////////////////////// basics //////////////////////////////////////////////
 
 #[derive(Clone, Copy, Debug, PartialEq, Eq, Serialize, Deserialize)]
@@ -362,6 +372,7 @@ impl<P: Property> Part for PbtPart<P> {
             failure_persistence: None,
             rng_seed: RngSeed::Fixed(seed),
             max_shrink_iters: p.max_shrink_iters(),
+            max_shrink_time: 60_000,
             max_global_rejects: 1 << 20,
             max_local_rejects: 1 << 20,
             ..Config::default()
@@ -773,7 +784,7 @@ fn run_parent(check: &Check, tier: Tier) -> i32 {
     let mine: Vec<&KnownFinding> = known.iter().filter(|k| k.property == check.id).collect();
     let mut new_violations: Vec<(ViolationRec, PathBuf)> = vec![];
     let mut known_hits: BTreeMap<String, u64> = BTreeMap::new();
-    let replay_dir = Path::new(VERIF_ROOT).join("replays").join(check.id);
+    let replay_dir = out_root().join("replays").join(check.id);
     // Report each distinct (part, signature) once, keeping the smallest case.
     let mut distinct: BTreeMap<(String, String), ViolationRec> = BTreeMap::new();
     for v in merged.violations.iter() {
@@ -904,7 +915,7 @@ fn run_parent(check: &Check, tier: Tier) -> i32 {
         "wall_s": wall,
         "violations": new_violations.len(),
     });
-    let evdir = Path::new(VERIF_ROOT).join("evidence");
+    let evdir = out_root().join("evidence");
     let _ = std::fs::create_dir_all(&evdir);
     let evpath = evdir.join(format!("{}.json", check.id));
     let mut f = std::fs::File::create(&evpath).expect("evidence file");
